@@ -25,9 +25,7 @@ package cisco
 
 // ---- C16: every range over a map must be justified as order independent ----
 //vc:maprange[C16] (*Config).MergeSpoc 1 "for prefix := range b.lookup" accumulate creates a missing map entry keyed by the iteration key; entries are independent
-//vc:maprange[C16] (*Config).MergeSpoc 2 "for prefix, bMap := range b.lookup" first-match NOT PROVED: mergeCmds merges anchors of different prefixes; anchors of different prefixes own disjoint objects unless two anchors share a referenced object (then isReferenced/Abort order could differ); bounded runs only
-//vc:maprange[C16] (*Config).MergeSpoc 3 "for name, bl := range bMap" first-match NOT PROVED: same as loop 2 for anchors of one prefix; bounded runs only
-//vc:maprange[C16] (*Config).MergeSpoc 4 "for c, used := range isReferenced" accumulate appends to warnings which is sorted by sort.Strings before printing
+//vc:maprange[C16] (*Config).MergeSpoc 2 "for c, used := range isReferenced" accumulate appends to warnings which is sorted by sort.Strings before printing
 //vc:maprange[C16] (*State).deleteUnused 1 "for prefix, m := range s.a.lookup" accumulate fills the maps toDelete (keyed by prefix+name of the iteration) and stillReferenced (set insertion, idempotent); nothing is emitted here, emission later iterates sorted keys
 //vc:maprange[C16] (*State).deleteUnused 2 "for name, l := range m" accumulate see loop 1
 //vc:maprange[C16] (*State).deleteUnused 3 "for p := range toDelete" accumulate deletes the iteration key itself where stillReferenced says so; deletions of different keys commute
@@ -40,8 +38,6 @@ package cisco
 //vc:maprange[C16] (*State).generateNamesForTransfer 2 "for _, bl := range m" accumulate see loop 1
 //vc:maprange[C16] (*State).ignoreCryptoGDOI 1 "for name := range rm" accumulate deletes map entries keyed by the iteration key
 //vc:maprange[C16] (*parser).addDefaults 1 "for k, vl := range defaultObjects" accumulate adds default objects under their own (prefix,name) key if absent
-//vc:maprange[C16] (*parser).checkReferences 1 "for _, m := range lookup" first-match early return only with an error; which dangling reference is named in the message depends on the order, exit status does not (error text is not an observable of C16); addDefaultObject inserts under the referenced key only
-//vc:maprange[C16] (*parser).checkReferences 2 "for _, cmdList := range m" first-match see loop 1
 //vc:maprange[C16] postprocessParsed 1 "access-list" accumulate rewrites each visited command from its own text
 //vc:maprange[C16] postprocessParsed 2 "ip access-list extended" accumulate rewrites each visited command from its own text
 //vc:maprange[C16] postprocessParsed 3 "aaa-server" accumulate per name: rewrites the commands of that name and stores them under the same key; Abort only changes the error text
